@@ -34,7 +34,7 @@ func ZZ_C17_CheckAction() {
 	open := rs.ZZOpen()
 	chain := rs.ZZChain()
 	rw := &zzRW{}
-	err := checkAction(s, t)(rw, zzRequest())
+	err := zzViaCheckAction(s, t, rw, zzRequest())
 	zzAssert(err == nil, "C17.checkAction-error")
 	want := false
 	for _, a := range zzAllowed[state] {
